@@ -96,6 +96,16 @@ def canon_msg(m):
             bool(getattr(m, 'is_valid', None)))
 
 
+def raw_of(m):
+    """readable form of a canonical message tuple."""
+    if m[0] == 'EXCEPTION':
+        return b'<' + m[1].encode() + b' raised>'
+    try:
+        return bytes.fromhex(m[1] or '')
+    except ValueError:
+        return repr(m[1]).encode()
+
+
 def impl_messages(variant, chunks):
     """list(iter(stream)) as canonical tuples (class, raw, payload, is_valid); never __eq__ of sentences."""
     out = []
@@ -171,7 +181,10 @@ def ais_stream(rng, n_msgs):
             body = b'GPGGA,092750.000,5321.6802,N,00630.3372,W,1,8,1.03,61.7,M,55.2,M,,'
             sents = [b'$' + body + b'*' + format(ais.xor_checksum(body), '02X').encode()]
         elif r < 0.14:
-            sents = [rng.choice([b'$ABC', b'!AIVDM,1', b'', b'!', b'$PGHP,1'])]   # dropped by the length filter
+            # at and around the length filter (len(line) <= 10 counts the terminator): 9/10/11/12 bytes with LF/CRLF,
+            # and a long line that should_parse() rejects
+            sents = [rng.choice([b'$ABC', b'!AIVDM,1', b'', b'!', b'$PGHP,1', b'!AIVDM,1,', b'!AIVDM,1,1', b'$ABCDEFGH',
+                                 b'\\s:x*00\\!', b'xAIVDM,1,1,,A,15M67FC000G?ufbE`FepT@3n00Sa,0*5C', b' !AIVDM,1,1,,A,1,0*00'])]
         else:
             kind = rng.random()
             if kind < 0.55:
@@ -183,6 +196,9 @@ def ais_stream(rng, n_msgs):
             seq = (seq + 1) % 10
             sents = ais.bits_to_sentences(bits, talker=rng.choice(['AIVDM', 'AIVDO', 'BSVDM']),
                                           channel=rng.choice(['A', 'B']), seq=seq if len(bits) > 360 else None)
+            if rng.random() < 0.15:      # tag block in front of every sentence of the message
+                tb = b's:st%d,c:%d' % (rng.randrange(100), 1241544035 + rng.randrange(1000))
+                sents = [b'\\' + tb + b'*' + format(ais.xor_checksum(tb), '02X').encode() + b'\\' + x for x in sents]
             n_ais += 1
         term_mode = rng.random()
         for s in sents:
@@ -248,12 +264,13 @@ def directed_segmentations(rng, lines):
 SHORT_LINES = [b'a\n', b'ab\n', b'abc\n', b'a\r\n', b'ab\r\n', b'\n', b'\r\n', b'b\n', b'abcd\r\n', b'ba\r\n', b'abcde\n']
 
 
-def short_streams(rng, max_len, count):
-    """streams of terminated lines of total length <= max_len (and >= 3), a fixed core plus random ones."""
-    core = [[b'ab\n', b'c\r\n'], [b'a\r\n', b'b\r\n', b'\r\n'], [b'abc\r\n', b'\n', b'ab\n'], [b'abcde\r\n', b'ab\r\n']]
-    out = [c for c in core if sum(map(len, c)) <= max_len]
+def short_streams(rng, max_len, count, min_len=3):
+    """streams of terminated lines of total length min_len..max_len: a fixed core plus random ones."""
+    core = [[b'ab\n', b'c\r\n'], [b'a\r\n', b'b\r\n', b'\r\n'], [b'abc\r\n', b'\n', b'ab\n'], [b'abcde\r\n', b'ab\r\n'],
+            [b'abcd\r\n', b'\r\n', b'ab\n', b'a\r\n']]
+    out = [c for c in core if min_len <= sum(map(len, c)) <= max_len]
     guard = 0
-    while len(out) < count and guard < 10000:
+    while len(out) < count and guard < 100000:
         guard += 1
         ls = []
         while True:
@@ -263,7 +280,7 @@ def short_streams(rng, max_len, count):
             ls.append(l)
             if rng.random() < 0.25:
                 break
-        if sum(map(len, ls)) >= 3 and ls not in out:
+        if sum(map(len, ls)) >= min_len and ls not in out:
             out.append(ls)
     return out
 
@@ -446,7 +463,7 @@ def check_cases(ctx, cases, with_messages=False, variants=VARIANTS, samples=True
                 rep.violation({'entry': 'SocketStream.__iter__', 'component': 'messages', 'kind': badm[0],
                                'segmentation': sig_class(chunks)},
                               f'iterating {variant} with recv() results {show(chunks)}: {badm[1]}; '
-                              f'delivered raw = {show([bytes.fromhex(m[1] or "") for m in msgs])}',
+                              f'delivered raw = {show([raw_of(m) for m in msgs])}',
                               replay_data(lines, chunks, variant, 'iter'))
         if samples and n % 211 == 0:
             rep.sample({'kind': kind, 'variant': variant, 'chunks': [c.decode('latin-1') for c in chunks][:10],
@@ -492,9 +509,9 @@ def ais_cases(ctx, n_streams):
     return cases
 
 
-def enumerated_short(ctx, max_len, count):
+def enumerated_short(ctx, max_len, count, min_len=3):
     cases = []
-    for ls in short_streams(ctx.rng, max_len, count):
+    for ls in short_streams(ctx.rng, max_len, count, min_len):
         s = b''.join(ls)
         for cuts in all_segmentations(len(s)):
             cases.append((f'all-segmentations-len{len(s)}', ls, cut(s, cuts)))
@@ -513,6 +530,20 @@ def one_two_cut_cases(ctx, n_msgs):
     return cases
 
 
+def filter_boundary_cases(ctx):
+    """Stream._iter_messages drops lines with len(line) <= 10 (terminator included) and lines should_parse() rejects:
+    lines of 9, 10, 11 and 12 bytes with every accepted and some rejected first bytes, LF and CRLF."""
+    lines = []
+    for first in (b'!', b'$', b'\\', b'x', b' ', b'#', b'"', b'%', b'[', b']'):
+        for n in (9, 10, 11, 12):
+            for term in (b'\n', b'\r\n'):
+                lines.append(first + b'AIVDM,1,1,,A'[:n - 1 - len(term)] + term)
+    assert {len(l) for l in lines} == {9, 10, 11, 12}
+    s = b''.join(lines)
+    cases = [(f'filter-boundary:{k}', lines, cut(s, cuts)) for k, cuts in directed_segmentations(ctx.rng, lines)]
+    return cases
+
+
 def run_in_slices(ctx, cases, size=4000, **kw):
     for i in range(0, len(cases), size):
         check_cases(ctx, cases[i:i + size], **kw)
@@ -525,7 +556,8 @@ def run(ctx):
         run_in_slices(ctx, enumerated_short(ctx, 12, 5), samples=False)
     else:
         run_in_slices(ctx, enumerated_short(ctx, 12, 30), samples=False)
-        run_in_slices(ctx, enumerated_short(ctx, 16, 8), samples=False)
+        run_in_slices(ctx, enumerated_short(ctx, 16, 7, min_len=13), samples=False)
+    check_cases(ctx, filter_boundary_cases(ctx), with_messages=True, samples=False)
     # AIS streams x directed segmentations, messages observed
     run_in_slices(ctx, ais_cases(ctx, ctx.budget(60, 1500)), with_messages=True)
     # all 1- and 2-cut segmentations of an AIS stream, messages observed
@@ -551,8 +583,8 @@ def self_check(ctx):
 
 def hunt(ctx):
     """Something no longer checks: all segmentations of many more short streams, many more random AIS cases."""
-    run_in_slices(ctx, enumerated_short(ctx, 14, 40), samples=False)
-    run_in_slices(ctx, ais_cases(ctx, 600), with_messages=True, samples=False)
+    run_in_slices(ctx, enumerated_short(ctx, 14, 25), samples=False)
+    run_in_slices(ctx, ais_cases(ctx, 400), with_messages=True, samples=False)
 
 
 def replay(ctx, data):
@@ -569,5 +601,131 @@ def replay(ctx, data):
 # --------------------------------------------------------------------------------------------------------------------
 # supporting only: the same bytes through real loopback sockets
 # --------------------------------------------------------------------------------------------------------------------
+class LoggingSock:
+    """delegates to a real socket and records what recv()/recvfrom() actually returned."""
+
+    def __init__(self, sock):
+        self.sock = sock
+        self.log = []
+
+    def recv(self, n):
+        b = self.sock.recv(n)
+        self.log.append(b)
+        return b
+
+    def recvfrom(self, n):
+        b, addr = self.sock.recvfrom(n)
+        self.log.append(b)
+        return b, addr
+
+    def close(self):
+        self.sock.close()
+
+
+def tcp_once(chunks, observe):
+    """send the chunks over a loopback TCP connection to a real TCPConnection -> (observed, chunks actually received)."""
+    import socket
+    import threading
+    import time
+    from pyais.stream import TCPConnection
+    srv = socket.socket(socket.AF_INET, socket.SOCK_STREAM)
+    srv.setsockopt(socket.SOL_SOCKET, socket.SO_REUSEADDR, 1)
+    srv.bind(('127.0.0.1', 0))
+    srv.listen(1)
+    port = srv.getsockname()[1]
+
+    def serve():
+        conn, _ = srv.accept()
+        try:
+            conn.setsockopt(socket.IPPROTO_TCP, socket.TCP_NODELAY, 1)
+            for c in chunks:
+                conn.sendall(c)
+                time.sleep(0.0015)
+        finally:
+            conn.close()
+
+    th = threading.Thread(target=serve, daemon=True)
+    th.start()
+    stream = None
+    try:
+        stream = TCPConnection('127.0.0.1', port)
+        stream._fobj.settimeout(5.0)
+        log = LoggingSock(stream._fobj)
+        stream._fobj = log
+        got = observe(stream)
+        return got, [c for c in log.log if c]
+    finally:
+        if stream is not None:
+            stream.close()
+        srv.close()
+        th.join(timeout=5)
+
+
+def udp_once(chunks, observe):
+    """one datagram per chunk to a real UDPReceiver; an empty datagram ends the stream."""
+    import socket
+    import time
+    from pyais.stream import UDPReceiver
+    probe = socket.socket(socket.AF_INET, socket.SOCK_DGRAM)
+    probe.bind(('127.0.0.1', 0))
+    port = probe.getsockname()[1]
+    probe.close()
+    stream = UDPReceiver('127.0.0.1', port)
+    snd = socket.socket(socket.AF_INET, socket.SOCK_DGRAM)
+    try:
+        stream._fobj.settimeout(3.0)
+        log = LoggingSock(stream._fobj)
+        stream._fobj = log
+        for c in chunks:                 # the datagrams wait in the receiver's socket buffer (a few kB in total)
+            snd.sendto(c, ('127.0.0.1', port))
+            time.sleep(0.0003)
+        snd.sendto(b'', ('127.0.0.1', port))
+        got = observe(stream)
+        return got, [c for c in log.log if c]
+    finally:
+        snd.close()
+        stream.close()
+
+
 def loopback_smoke(ctx):
-    ctx.rep.notes.append('loopback smoke test: not run')
+    """Supporting evidence only: real TCPConnection / UDPReceiver objects on 127.0.0.1.  What recv()/recvfrom() really
+    returned is recorded; if the recorded chunks are a segmentation of the stream sent, the lines read must be the
+    original lines (the kernel's segmentation is one of those the theorem covers).  Anything that prevents the
+    transport from working (no loopback, timeouts, lost datagrams) makes the smoke test inconclusive, not failed."""
+    rep, rng = ctx.rep, ctx.rng
+    done = {'tcp': 0, 'udp': 0}
+    inconclusive = []
+    for n in range(ctx.budget(0, 40)):
+        lines, _ = ais_stream(rng, rng.randrange(1, 5))
+        s = b''.join(lines)
+        kind, cuts = rng.choice(directed_segmentations(rng, lines))
+        chunks = cut(s, cuts)
+        if len(chunks) > 150:
+            chunks = cut(s, list(range(3, len(s), 3)))
+        for proto, once in (('tcp', tcp_once), ('udp', udp_once)):
+            for entry, observe in (('read', lambda st: [bytes(x) for x in st.read()]),
+                                   ('iter', lambda st: [canon_msg(m) for m in st])):
+                if entry == 'iter' and n % 4:
+                    continue
+                try:
+                    got, received = once(chunks, observe)
+                except Exception as e:  # noqa: BLE001 -- transport trouble: inconclusive
+                    inconclusive.append(f'{proto}: {type(e).__name__}: {e}')
+                    continue
+                if b''.join(received) != s:
+                    inconclusive.append(f'{proto}: bytes received differ from bytes sent (lost/reordered datagrams)')
+                    continue
+                done[proto] += 1
+                rep.case((proto, entry, s, tuple(map(len, received))), kind=f'loopback-{proto}-{entry}')
+                if entry == 'read':
+                    bad = lines_oracle(lines, {'lines': got, 'exc': None})
+                else:
+                    bad = msgs_oracle(impl_messages('SocketStream', list(lines)), got)
+                if bad:
+                    variant = 'TCPConnection' if proto == 'tcp' else 'UDPReceiver'
+                    rep.violation({'entry': f'{variant}(loopback).{entry}', 'component': 'lines' if entry == 'read' else 'messages',
+                                   'kind': bad[0], 'segmentation': sig_class(received)},
+                                  f'real {variant} on 127.0.0.1, recv() returned {show(received)}: {bad[1]}',
+                                  replay_data(lines, received, variant, entry))
+    rep.notes.append(f"loopback smoke test (supporting only): {done['tcp']} TCP and {done['udp']} UDP transfers compared, "
+                     f"{len(inconclusive)} inconclusive" + (f" (first: {inconclusive[0]})" if inconclusive else ''))
